@@ -250,8 +250,15 @@ func genKnownFields(repo string) (map[string][]knownField, error) {
 // fieldAlias: field object -> reviewed name (consulted by fieldName).
 var fieldAlias = map[*types.Var]string{}
 
+// fieldTransparent: fields that only group reviewed fields of their struct into a new nested struct type.
+// fieldOwner: a field of such a nested struct -> the reviewed struct type it belongs to.
+var fieldTransparent = map[*types.Var]bool{}
+var fieldOwner = map[*types.Var]*types.TypeName{}
+
 func detectFieldRenames(c *Ctx) []string {
 	fieldAlias = map[*types.Var]string{}
+	fieldTransparent = map[*types.Var]bool{}
+	fieldOwner = map[*types.Var]*types.TypeName{}
 	b, err := os.ReadFile(knownFieldsPath())
 	if err != nil {
 		return nil
@@ -283,16 +290,14 @@ func detectFieldRenames(c *Ctx) []string {
 						continue
 					}
 					cur := structFieldsOf(c.Fset, st)
-					if len(cur) != len(old) {
-						continue
-					}
-					same := true
-					for i := range cur {
+					same := len(cur) == len(old)
+					for i := 0; same && i < len(cur); i++ {
 						if cur[i].Type != old[i].Type {
 							same = false
 						}
 					}
 					if !same {
+						notes = append(notes, detectFieldGrouping(c, p, rel, ts, old, known)...)
 						continue
 					}
 					tn, _ := p.TypesInfo.Defs[ts.Name].(*types.TypeName)
@@ -319,6 +324,127 @@ func detectFieldRenames(c *Ctx) []string {
 	}
 	sort.Strings(notes)
 	return notes
+}
+
+// detectFieldGrouping: the reviewed fields of a struct are all still there, some of them moved (possibly renamed) into
+// fields of new unexported struct types that exist only to group them. The grouping fields become transparent and the
+// moved fields keep their reviewed owner and name. Nothing is set unless every reviewed field is accounted for and no
+// field is left over.
+func detectFieldGrouping(c *Ctx, p *packages.Package, rel string, ts *ast.TypeSpec, old []knownField, known map[string][]knownField) []string {
+	tn, _ := p.TypesInfo.Defs[ts.Name].(*types.TypeName)
+	if tn == nil {
+		return nil
+	}
+	tst, _ := tn.Type().Underlying().(*types.Struct)
+	if tst == nil {
+		return nil
+	}
+	type flat struct {
+		v         *types.Var
+		container *types.Var
+		typ       string
+	}
+	typeText := func(t types.Type) string {
+		return types.TypeString(t, func(q *types.Package) string {
+			if q == p.Types {
+				return ""
+			}
+			return q.Name()
+		})
+	}
+	var cur []flat
+	for i := 0; i < tst.NumFields(); i++ {
+		f := tst.Field(i)
+		if nt, ok := f.Type().(*types.Named); ok && nt.Obj().Pkg() == p.Types && !f.Embedded() {
+			if inner, ok := nt.Underlying().(*types.Struct); ok {
+				if _, reviewed := known[rel+"|"+nt.Obj().Name()]; !reviewed && nt.NumMethods() == 0 && typeUsedOnlyBy(p, nt.Obj(), f) {
+					for j := 0; j < inner.NumFields(); j++ {
+						cur = append(cur, flat{inner.Field(j), f, typeText(inner.Field(j).Type())})
+					}
+					continue
+				}
+			}
+		}
+		cur = append(cur, flat{f, nil, typeText(f.Type())})
+	}
+	if len(cur) != len(old) {
+		return nil
+	}
+	norm := func(s string) string { return strings.Join(strings.Fields(s), "") }
+	used := make([]bool, len(cur))
+	match := make([]int, len(old))
+	for i := range match {
+		match[i] = -1
+	}
+	// same name and type first
+	for i, o := range old {
+		for j, x := range cur {
+			if !used[j] && x.v.Name() == o.Name && norm(x.typ) == norm(o.Type) {
+				used[j], match[i] = true, j
+				break
+			}
+		}
+	}
+	// then a unique leftover of the same type
+	for i, o := range old {
+		if match[i] >= 0 {
+			continue
+		}
+		cand := -1
+		for j, x := range cur {
+			if !used[j] && norm(x.typ) == norm(o.Type) {
+				if cand >= 0 {
+					return nil
+				}
+				cand = j
+			}
+		}
+		if cand < 0 {
+			return nil
+		}
+		for i2, o2 := range old {
+			if i2 != i && match[i2] < 0 && norm(o2.Type) == norm(o.Type) {
+				return nil
+			}
+		}
+		used[cand], match[i] = true, cand
+	}
+	var notes []string
+	grouped := false
+	for i, o := range old {
+		x := cur[match[i]]
+		if x.container != nil {
+			grouped = true
+			fieldTransparent[x.container] = true
+			fieldOwner[x.v] = tn
+			notes = append(notes, fmt.Sprintf("field %s.%s.%s is the reviewed field %s.%s moved into a grouping struct", ts.Name.Name, x.container.Name(), x.v.Name(), ts.Name.Name, o.Name))
+		}
+		if x.v.Name() != o.Name && o.Name != "" {
+			fieldAlias[x.v] = o.Name
+			if x.container == nil {
+				notes = append(notes, fmt.Sprintf("field %s.%s is the reviewed field %s under a new name", ts.Name.Name, x.v.Name(), o.Name))
+			}
+		}
+	}
+	if !grouped && len(notes) == 0 {
+		return nil
+	}
+	return notes
+}
+
+// typeUsedOnlyBy: the named type is mentioned nowhere in its package except as the type of field f.
+func typeUsedOnlyBy(p *packages.Package, tn *types.TypeName, f *types.Var) bool {
+	n := 0
+	for id, obj := range p.TypesInfo.Uses {
+		if obj == tn {
+			n++
+			if id.Pos() < f.Pos() || id.Pos() > f.Pos()+token.Pos(len(f.Name())+200) {
+				// a use far from the field declaration
+				return false
+			}
+		}
+	}
+	return n == 1
 }
 
 // ---- package-level identifiers (variables, constants, types): same declaration text under a new name
